@@ -235,7 +235,8 @@ pub fn random<const N: usize, P: Pad>(ctx: &mut Ctx) {
                 let out = step(&mut h, &mut model, &op, &mut env, ctx, &mon, fault, Some(&pre));
                 if repaint {
                     for (k, id) in out.events.iter().zip(out.event_ids.iter()) {
-                        if *id == dead_id || *id == live_tok.id || k.starts_with("garbage_touched") {
+                        let _ = id;
+                        {
                             let c = ctx.cur_case.clone();
                             ctx.violation(
                                 "C04",
